@@ -33,6 +33,15 @@ KINDS = {
     "build": [],
     "fullbfs": [],
     "fulldfs": [],
+    "fmin": [("skip", "flag")],          # minimal-space expansion from the root, no limit
+    "faseeds": [],
+    "skipall": [],                      # skip_to_minimal on every stub
+    "everyseeds": [],                   # node_attractor_seeds(compute=True) on every node
+    "allseeds": [],                     # expanded_attractor_seeds()
+    "summary": [],
+    "blockd": [],                       # expand_block() with default settings
+    "sccd": [],                         # expand_scc() with default settings
+    "selfhang": [],                     # vacuity twin of C13: an operation that never returns
     "nop": [],
 }
 MAXNODE = 9
@@ -134,6 +143,14 @@ def build_op(k, kind, H, sd, names):
         op["optsrc"] = False
     if kind in ("fullbfs", "fulldfs"):
         return {"op": kind[4:]}
+    if kind == "fmin":
+        return {"op": "min", "skip": H.flag(f"h{k}_skip")}
+    if kind == "faseeds":
+        return {"op": "aseeds"}
+    if kind == "blockd":
+        return {"op": "block"}
+    if kind == "sccd":
+        return {"op": "scc"}
     if kind in ("qcands", "qseeds"):
         op["op"] = kind[1:]
         op["compute"] = False
